@@ -31,6 +31,7 @@ if [ ! -f $F/.done ] || [ /verif/build.sh -nt $F/.done ]; then
   cp $F/libfix_sha1.so $F/libdeleted.so
   head -c 12288 /dev/zero | tr '\0' 'x' > $F/plain.bin
   cp $F/plain.bin "$F/$(printf 'plain_\303\274_\360\237\230\200.bin')"
+  head -c 4096 /dev/zero | tr '\0' 'j' > $F/archive.bin; cat $F/libfix_sha1.so >> $F/archive.bin
   head -c 100 $F/libfix_sha1.so > $F/truncated.so; head -c 8192 /dev/zero >> $F/truncated.so
   touch $F/.done
 fi
